@@ -92,6 +92,17 @@ def run(tier, seed):
         for (i, msg) in oracle(c)[:1]:
             nviol += 1
             rep.violation(f'cache read disagrees with the abstract map: {msg}', {'history': c['in']['ops'][:i + 1], 'step': i, 'impl': c['out']['steps'][i]['ret']})
+    # several handles: what a second handle reads while a writer is between two of its statements
+    peeks, err = C.run_harness('cache-fault', seed + 5, 25 if tier == 'quick' else 600, {'abort': '0'}, timeout=3000)
+    npeek = 0
+    for c in peeks or []:
+        i, o = c['in'], c['out']
+        if i['mode'] == 'peek' and o['fired']:
+            npeek += 1
+            if o['got'] not in (o['before'], o['after']):
+                rep.violation(f'a second handle reading while {i["op"]["op"]} is at statement point {i["point"]} sees neither the state before nor after the operation',
+                              {'history': i['prefix'], 'operation': i['op'], 'point': i['point'], 'before': o['before'], 'after': o['after'], 'seen_by_second_handle': o['got']})
+    rep.cov['streams']['second_handle_reads'] = {'reads_inside_a_write': npeek}
     nsteps = sum(len(c['in']['ops']) for c in cases)
     rep.cov.update({'evaluations': nsteps, 'distinct_nontrivial': len(cases), 'programs': len(cases), 'disagreements_checked': nsteps,
                     'rule': 'random histories over store/tags/mark/claim/release/reopen/reads on 2-4 colliding keys incl. hostile names, 1-3 handles; every step compared'})
